@@ -262,4 +262,15 @@ def Spec.run (sp : Spec) : List SEv → Spec × List (List SOut)
     let r2 := Spec.run r1.1 es
     (r2.1, r1.2 :: r2.2)
 
+/-! ## abstraction: the Spec state a model state stands for -/
+
+/-- the six request tables read as one map `id ↦ (kind, request)` -/
+def absPending (s : Sess) : List (ReqId × (Kind × Req)) :=
+  Kind.all.flatMap (fun k => (s.tbl k).map (fun e => (e.1, (k, e.2))))
+
+def abs (s : Sess) : Spec :=
+  { up := s.transport, joined := s.sessionId.isSome, goodbyeSent := s.goodbyeSent, seq := s.issued,
+    nfut := s.futs.length, kinds := s.futs.map (·.kind), pending := absPending s,
+    done := (List.range s.futs.length).filter s.called, handlers := s.subs, regs := s.regs }
+
 end Abverif.SessSpec
